@@ -16,7 +16,14 @@ RULE = ('a fresh generated package per case (modules, equally named modules in a
         'gin.get_configurable(<python object>) receives exactly the last value bound through any spelling; one config_str section per object; '
         'references created earlier see class and method bindings; names only imported by an includer/includee -> NameError, attribute misses -> '
         'AttributeError, bound name gin -> ValueError, late/aliased enabling and unknown __gin__ feature -> SyntaxError; config_str() re-parsed in the '
-        'same process and in a fresh interpreter delivers the same values and reproduces the text. distinct = (import forms, spelling sequence, order class)')
+        'same process and in a fresh interpreter delivers the same values and reproduces the text. Bindings also in block form; references inside '
+        'containers, unevaluated, to a nested class, held by a macro or by a scoped binding; every object of the package is probed (unbound ones must '
+        'receive nothing; instances/return tags identify the exact object); operative_config_str() re-parsed. File trees (kind ftree): 1-3 top-level '
+        'parse calls (parse_config / parse_config_file / parse_config_files_and_bindings) over files with nested, double and diamond includes, each '
+        'with its own colliding imports (aliases, plain three-component imports, `from PK import sub`, re-exported objects, a decorator-registered '
+        'class with a method), binding functions, classes, methods and nested members; negatives: a name bound only by an earlier top-level call, a '
+        'grandparent, a grandchild, a sibling include, in binding / block / reference / macro position -> NameError and nothing delivered. '
+        'distinct = (import forms, spelling sequence, order class)')
 TIERS = {
     'quick': {'workers': 8, 'cases': 160, 'timeout': 900, 'fresh_process_every': 12},
     'thorough': {'workers': 16, 'cases': 3000, 'timeout': 3400, 'fresh_process_every': 25},
@@ -26,7 +33,20 @@ REQUIRED_BUCKETS = ['import:plain', 'import:as', 'import:from', 'import:from-as'
                     'ref:created-before-method-configured', 'ref:scoped', 'obj:registered-by-decorator-under-custom-name', 'obj:decorated-variant-of-another-object', 'include:own-imports', 'include:colliding-bound-name', 'error:name-from-includer', 'error:name-from-includee',
                     'error:attribute', 'error:gin-reserved', 'error:late-enabling', 'error:aliased-enabling', 'error:unknown-feature', 'error:unknown-feature-path', 'roundtrip:same-process',
                     'roundtrip:fresh-process', 'equally-named-modules', 'cross-parse:second-parse', 'cross-parse:include', 'cross-parse:includer', 'alias-collision:second-parse', 'alias-collision:include', 'alias-collision:sibling-plain-after-alias', 'alias-collision:sibling-plain-before-alias', 'alias-collision:same-file-rebind',
-                    'alias-collision:includer']
+                    'alias-collision:includer',
+                    'form:block', 'form:block-first-use', 'ref:in-container', 'ref:unevaluated', 'ref:to-nested-class', 'ref:held-by-macro', 'ref:in-scoped-binding',
+                    'ref:container-created-before-method-configured', 'probe:unbound-object-registered', 'probe:unbound-object-unregistered', 'roundtrip:operative',
+                    'import:plain-three-components', 'import:two-plain-imports-of-one-package', 'error:gin-reserved:plain-import', 'error:gin-reserved:dotted-import',
+                    'error:gin-reserved:from-import', 'cross-parse:roundtrip', 'cross-parse:entry-file',
+                    'ftree:shape:chain3', 'ftree:shape:two-includes', 'ftree:shape:diamond', 'ftree:shape:sequence', 'ftree:shape:sequence-with-include',
+                    'ftree:entry:parse_config', 'ftree:entry:parse_config_file', 'ftree:entry:parse_config_files_and_bindings',
+                    'ftree:colliding-bound-name-across-files', 'ftree:colliding-name-three-files', 'ftree:class-member-through-colliding-name', 'ftree:spelling:package-then-submodule',
+                    'ftree:spelling:plain-three-components', 'ftree:spelling:re-exported-object', 'ftree:obj:decorator-registered-class-method', 'ftree:form:block',
+                    'ftree:roundtrip:config_str', 'ftree:roundtrip:operative', 'ftree:roundtrip:fresh-process', 'ftree:method-before-class-under-colliding-name',
+                    'ftree:registered-before-clear_config',
+                    'isolation:earlier-parse', 'isolation:parent', 'isolation:grandparent', 'isolation:child', 'isolation:grandchild', 'isolation:sibling-include',
+                    'isolation:position:binding', 'isolation:position:block', 'isolation:position:reference', 'isolation:position:reference-in-container',
+                    'isolation:position:macro-value', 'isolation:nothing-delivered']
 ORACLE_COUNTERS = ['oracle_evals', 'deliveries_compared', 'roundtrips']
 _S = {}
 
@@ -58,7 +78,42 @@ IMPORTS = {
     'import PK.sub.alpha as SA': ('as', 'SA', 'sub.alpha'),
     'from PK.sub import gamma': ('from', 'gamma', 'sub.gamma'),
     'from PK.sub import alpha as alpha2': ('from-as', 'alpha2', 'sub.alpha'),
+    'import PK.sub.alpha': ('plain', 'PK', ''),          # three components: the selector is PK.sub.alpha.<object>
+    'import PK.sub.gamma': ('plain', 'PK', ''),
 }
+# how a reference to a class is written / held (gap: only a bare top-level `@K()` used to be generated)
+REF_WRAPS = {'plain': '%s', 'uneval': '%s', 'list': '[%s]', 'dict': "{'k': %s}", 'tuple': '(%s, 1)', 'nested': "{'k': [1, (%s,)]}"}
+REF_TARGETS = {'alpha.K': ('alpha.K.meth', 'm'), 'alpha.K.Inner': ('alpha.K.Inner.deep', 'd')}
+
+
+def _cfg(gin, o):
+  """The configurable version of python object `o`; `o` itself when gin never registered it (then nothing can have been bound to it)."""
+  try:
+    return gin.get_configurable(o)
+  except Exception:  # pylint: disable=broad-except
+    return o
+
+
+def obj_tag(obj):
+  mod, chain, _, _ = OBJECTS[obj]
+  return 'PK.%s.%s' % (mod, '.'.join(chain))
+
+
+def ref_key(opts):
+  return 'REF|%s|%s' % (opts.get('wrap', 'plain'), opts.get('target', 'alpha.K'))
+
+
+def unwrap_ref(v, wrap):
+  """The instance built through the reference held in (container) value `v`."""
+  if wrap == 'list' or wrap == 'tuple':
+    return v[0]
+  if wrap == 'dict':
+    return v['k']
+  if wrap == 'nested':
+    return v['k'][1][0]
+  if wrap == 'uneval':
+    return v()       # the configurable class itself was injected
+  return v
 
 
 def setup(ctx):
@@ -87,9 +142,14 @@ def spellings(obj, imports):
 
 def iter_cases(ctx, rng, n):
   main_no = 0
+  ft_no = rng.randrange(10)
   for i in range(n):
     if i % 40 == 9:
       yield {'kind': 'class-shape', 'which': rng.choice(['inherited-method', 'static-method', 'class-method']), 'order': rng.random() < 0.5}
+      continue
+    if i % 9 == 5:
+      ft_no += 1
+      yield gen_ftree(rng, negative=ft_no % 2 == 0, fresh=ft_no % 10 == 1)
       continue
     if i % 7 == 3:
       if rng.random() < 0.35:
@@ -99,10 +159,10 @@ def iter_cases(ctx, rng, n):
         continue
       yield {'kind': 'cross-parse', 'how': rng.choice(['second-parse', 'include', 'includer']), 'ref_import': rng.choice(['import PK.alpha as M1', 'from PK import alpha as M1', 'import PK.alpha']),
              'meth_import': rng.choice(['from PK import alpha', 'import PK.alpha as Z9', 'import PK.alpha']), 'scoped': rng.random() < 0.5,
-             'second_method': rng.random() < 0.5}
+             'second_method': rng.random() < 0.5, 'entry': rng.choice(['text', 'file']), 'wrap': rng.choice(['plain', 'plain', 'list', 'uneval'])}
       continue
     if i % 5 == 4:
-      yield {'kind': 'errors', 'which': rng.choice(['name-from-includer', 'name-from-includee', 'attribute', 'gin-reserved', 'late-enabling', 'aliased-enabling',
+      yield {'kind': 'errors', 'which': rng.choice(['name-from-includer', 'name-from-includee', 'attribute', 'gin-reserved', 'gin-reserved', 'late-enabling', 'aliased-enabling',
                                                       'unknown-feature', 'unknown-feature-path']), 'seed': rng.randrange(1 << 30)}
       continue
     imports = rng.sample(sorted(IMPORTS), rng.choice([2, 3, 4, 5]))
@@ -122,20 +182,35 @@ def iter_cases(ctx, rng, n):
       if not objs:
         break
       o = rng.choice(objs)
-      stmts.append(['bind', o, rng.choice(avail[o]), rng.choice(OBJECTS[o][2]), rng.randrange(1000), rng.choice(['', '', 'sc'])])
-    if avail['sub.gamma.fg'] and avail['alpha.K'] and rng.random() < 0.5:
-      pos = rng.randrange(len(stmts) + 1)
+      st = ['bind', o, rng.choice(avail[o]), rng.choice(OBJECTS[o][2]), rng.randrange(1000), rng.choice(['', '', 'sc'])]
+      if rng.random() < 0.25:
+        # block form `selector:` + indented members (a separate statement kind with its own resolution path)
+        others = [p for p in OBJECTS[o][2] if p != st[3]]
+        st += ['block', [rng.choice(others), rng.randrange(1000)] if others and rng.random() < 0.5 else None]
+      stmts.append(st)
+    if avail['sub.gamma.fg'] and avail['alpha.K'] and rng.random() < 0.55:
+      target = rng.choice(['alpha.K', 'alpha.K', 'alpha.K.Inner'])
+      opts = {'target': target, 'wrap': rng.choice(sorted(REF_WRAPS)), 'macro': rng.random() < 0.25, 'bsc': ''}
       rsc = rng.choice(['', 'rsc', 'rsc'])
-      stmts.insert(pos, ['ref', 'sub.gamma.fg', rng.choice(avail['sub.gamma.fg']), 'ref', rng.choice(avail['alpha.K']), rsc])
+      if rng.random() < 0.25:
+        opts['bsc'], rsc = 'bsc', ''      # the reference is the value of a scoped binding (scopes apply by prefix: not combined with a scoped reference)
+      meth, mprm = REF_TARGETS[target]
+      if rng.random() < 0.6:
+        # make "the method is configured after the reference exists" frequent
+        stmts.append(['bind', meth, rng.choice(avail[meth]), mprm, rng.randrange(1000), ''])
+        pos = rng.randrange(len(stmts))
+      else:
+        pos = rng.randrange(len(stmts) + 1)
+      stmts.insert(pos, ['ref', 'sub.gamma.fg', rng.choice(avail['sub.gamma.fg']), 'ref', rng.choice(avail[target]), rsc, opts])
       if rsc:
-        stmts.insert(rng.randrange(len(stmts) + 1), ['bind', 'alpha.K', rng.choice(avail['alpha.K']), 'b', rng.randrange(1000), 'rsc'])
+        stmts.insert(rng.randrange(len(stmts) + 1), ['bind', target, rng.choice(avail[target]), OBJECTS[target][2][-1], rng.randrange(1000), 'rsc'])
     include = None
     if rng.random() < 0.4:
       inc_imports = rng.sample(['from PK.sub import alpha', 'import PK.sub.alpha as A1', 'from PK import beta as B', 'from PK.sub import gamma as alpha2'], rng.choice([1, 2]))
       include = {'imports': inc_imports, 'pos': rng.randrange(len(stmts) + 1)}
     main_no += 1
     # decided here (not from the case number, whose residues are tied to the case kinds): which cases also go through a fresh interpreter
-    yield {'kind': 'bindings', 'imports': imports, 'stmts': stmts, 'include': include, 'seed': rng.randrange(1 << 30),
+    yield {'kind': 'bindings', 'imports': imports, 'stmts': stmts, 'include': include, 'seed': rng.randrange(1 << 30), 'operative': main_no % 3 == 0,
            'fresh': main_no % ctx.params.get('fresh_process_every', 1 << 30) == 0}
 
 
@@ -153,29 +228,49 @@ def resolve_obj(pk, obj):
 
 
 def deliver(gin, pk, expected_keys):
-  """Call every object of interest through gin.get_configurable(<python object>) and report what it received."""
+  """Call every object of interest through gin.get_configurable(<python object>) and report what it received.
+
+  Besides the parameter values, every entry carries '_obj': 'ok' when what answered is the exact object (return tag of the function / method,
+  instance of the original class), a description otherwise. Objects gin never registered are called directly (nothing can be bound to them)."""
   out = {}
   for (scope, obj) in expected_keys:
-    if obj == 'REF':
-      inst = gin.get_configurable(resolve_obj(pk, 'sub.gamma.fg'))()[2]
-      out[(scope, obj)] = {'a': inst.a, 'b': inst.b, 'm': inst.meth()[1]}
+    if obj.startswith('REF'):
+      parts = obj.split('|')
+      wrap = parts[1] if len(parts) > 1 else 'plain'
+      target = parts[2] if len(parts) > 2 else 'alpha.K'
+      with gin.config_scope(scope or None):
+        inst = unwrap_ref(_cfg(gin, resolve_obj(pk, 'sub.gamma.fg'))()[2], wrap)
+        cls = resolve_obj(pk, target)
+        if target == 'alpha.K':
+          r = inst.meth()
+          out[(scope, obj)] = {'a': inst.a, 'b': inst.b, 'm': r[1], '_obj': 'ok' if isinstance(inst, cls) and r[0] == pk + '.alpha.K.meth' else repr((type(inst), r[0])).replace(pk, 'PK')}
+        else:
+          r = inst.deep()
+          out[(scope, obj)] = {'i': inst.i, 'd': r[1], '_obj': 'ok' if isinstance(inst, cls) and r[0] == pk + '.alpha.K.Inner.deep' else repr((type(inst), r[0])).replace(pk, 'PK')}
       continue
     mod, chain, params, kind = OBJECTS[obj]
+    tag = obj_tag(obj).replace('PK', pk)
     with gin.config_scope(scope or None):
       if kind == 'function':
-        r = gin.get_configurable(resolve_obj(pk, obj))()
+        r = _cfg(gin, resolve_obj(pk, obj))()
         if obj == 'alpha.fa_traced':
           out[(scope, obj)] = dict(zip(params, r[2:])) if r[0] == 'traced' else {'NOT-THE-DECORATED-VARIANT': r}
+          rtag, tag = r[1], pk + '.alpha.fa'
         else:
           out[(scope, obj)] = dict(zip(params, r[1:])) if r[0] != 'traced' else {'NOT-THE-BASE-FUNCTION': r}
+          rtag = r[0]
+        out[(scope, obj)]['_obj'] = 'ok' if rtag == tag else repr(rtag).replace(pk, 'PK')
       elif kind in ('class', 'nested-class'):
-        inst = gin.get_configurable(resolve_obj(pk, obj))()
+        cls = resolve_obj(pk, obj)
+        inst = _cfg(gin, cls)()
         out[(scope, obj)] = {p: getattr(inst, p) for p in params}
+        out[(scope, obj)]['_obj'] = 'ok' if isinstance(inst, cls) else repr(type(inst)).replace(pk, 'PK')
       else:
         cls_obj = '.'.join(obj.split('.')[:-1])
-        inst = gin.get_configurable(resolve_obj(pk, cls_obj))()
+        cls = resolve_obj(pk, cls_obj)
+        inst = _cfg(gin, cls)()
         r = getattr(inst, chain[-1])()
-        out[(scope, obj)] = {params[0]: r[1]}
+        out[(scope, obj)] = {params[0]: r[1], '_obj': 'ok' if isinstance(inst, cls) and r[0] == tag else repr((type(inst), r[0])).replace(pk, 'PK')}
   return out
 
 
@@ -199,6 +294,10 @@ def run_bindings(ctx, case):
   imports = case['imports']
   for imp in imports:
     ctx.bucket('import:' + IMPORTS[imp][0])
+    if IMPORTS[imp][0] == 'plain' and imp.count('.') == 2:
+      ctx.bucket('import:plain-three-components')
+  if sum(1 for imp in imports if IMPORTS[imp][0] == 'plain') > 1:
+    ctx.bucket('import:two-plain-imports-of-one-package')
   lines = ['from __gin__ import dynamic_registration'] + [i.replace('PK', pk) for i in imports]
   model = {}
   first_use = {}
@@ -208,12 +307,23 @@ def run_bindings(ctx, case):
   body = []
   ref_created_at = None
   ref_scope = ''
+  ref_opts = {}
   for idx, st in enumerate(stmts):
     if case['include'] and case['include']['pos'] == idx:
       body.append('INCLUDE')
     if st[0] == 'bind':
-      _, obj, sp, prm, val, scope = st
-      body.append('%s%s.%s = %d' % (scope + '/' if scope else '', sp.replace('PK', pk), prm, val))
+      _, obj, sp, prm, val, scope = st[:6]
+      sel = '%s%s' % (scope + '/' if scope else '', sp.replace('PK', pk))
+      if len(st) > 6 and st[6] == 'block':
+        ctx.bucket('form:block')
+        if obj not in first_use and not any(o.startswith(obj + '.') for o in first_use):
+          ctx.bucket('form:block-first-use')
+        body.append('%s:\n  %s = %d' % (sel, prm, val))
+        if st[7]:
+          body[-1] += '\n  %s = %d' % (st[7][0], st[7][1])
+          model.setdefault((scope, obj), {})[st[7][0]] = st[7][1]
+      else:
+        body.append('%s.%s = %d' % (sel, prm, val))
       model.setdefault((scope, obj), {})[prm] = val
       first_use.setdefault(obj, idx)
       spell_used.setdefault(obj, set()).add(sp)
@@ -223,14 +333,29 @@ def run_bindings(ctx, case):
       if obj == 'alpha.fa_traced':
         ctx.bucket('obj:decorated-variant-of-another-object')
     else:
-      _, obj, sp, prm, refsp, rsc = st
-      body.append('%s.%s = @%s%s()' % (sp.replace('PK', pk), prm, rsc + '/' if rsc else '', refsp.replace('PK', pk)))
+      _, obj, sp, prm, refsp, rsc = st[:6]
+      ref_opts = dict(st[6]) if len(st) > 6 else {}
+      wrap, target, bsc = ref_opts.get('wrap', 'plain'), ref_opts.get('target', 'alpha.K'), ref_opts.get('bsc', '')
+      value = REF_WRAPS[wrap] % ('@%s%s%s' % (rsc + '/' if rsc else '', refsp.replace('PK', pk), '' if wrap == 'uneval' else '()'))
+      if ref_opts.get('macro'):
+        body.append('REFM = %s' % value)
+        value = '%REFM'
+        ctx.bucket('ref:held-by-macro')
+      body.append('%s%s.%s = %s' % (bsc + '/' if bsc else '', sp.replace('PK', pk), prm, value))
       ref_created_at = idx
       ref_scope = rsc
       if rsc:
         ctx.bucket('ref:scoped')
-      spell_used.setdefault('alpha.K', set()).add(refsp)
-      first_use.setdefault('alpha.K', idx)
+      if wrap in ('list', 'dict', 'tuple', 'nested'):
+        ctx.bucket('ref:in-container')
+      if wrap == 'uneval':
+        ctx.bucket('ref:unevaluated')
+      if target == 'alpha.K.Inner':
+        ctx.bucket('ref:to-nested-class')
+      if bsc:
+        ctx.bucket('ref:in-scoped-binding')
+      spell_used.setdefault(target, set()).add(refsp)
+      first_use.setdefault(target, idx)
   if case['include'] and case['include']['pos'] >= len(stmts):
     body.append('INCLUDE')
   if any(len(v) > 1 for v in spell_used.values()):
@@ -243,9 +368,13 @@ def run_bindings(ctx, case):
       meth_roots = {s.split('.')[0] for s in spell_used[meth]}
       if cls_roots != meth_roots:
         ctx.bucket('order:method-via-other-spelling-than-class')
-  meth_after_ref = ref_created_at is not None and any(st[0] == 'bind' and st[1] in ('alpha.K.meth', 'alpha.K.other') and i > ref_created_at for i, st in enumerate(stmts))
+  ref_target = ref_opts.get('target', 'alpha.K')
+  ref_meths = ('alpha.K.meth', 'alpha.K.other') if ref_target == 'alpha.K' else ('alpha.K.Inner.deep',)
+  meth_after_ref = ref_created_at is not None and any(st[0] == 'bind' and st[1] in ref_meths and i > ref_created_at for i, st in enumerate(stmts))
   if meth_after_ref:
     ctx.bucket('ref:created-before-method-configured')
+    if ref_opts.get('wrap', 'plain') in ('list', 'dict', 'tuple', 'nested'):
+      ctx.bucket('ref:container-created-before-method-configured')
   if any(IMPORTS[i][2] == 'sub.alpha' for i in imports) and any(IMPORTS[i][2] == 'alpha' or (IMPORTS[i][2] == '' and 'alpha' in i) for i in imports):
     ctx.bucket('equally-named-modules')
   # included file with its own imports (possibly binding the same names to other modules)
@@ -264,23 +393,36 @@ def run_bindings(ctx, case):
     open(inc_path, 'w').write('\n'.join(inc_lines) + '\n')
     body = [("include '%s'" % inc_path) if b == 'INCLUDE' else b for b in body]
   text = '\n'.join(lines + body) + '\n'
-  ctx.fp(tuple(sorted(IMPORTS[i][0] for i in imports)), tuple((st[0], st[1], st[2].split('.')[0]) for st in stmts), bool(case['include']))
+  def st_fp(st):
+    extra = ()
+    if len(st) > 6:
+      extra = (st[6],) if st[0] == 'bind' else (st[6].get('wrap'), st[6].get('target'), bool(st[6].get('macro')), st[6].get('bsc'))
+    return (st[0], st[1], st[2].split('.')[0]) + extra
+  ctx.fp(tuple(sorted(IMPORTS[i][0] for i in imports)), tuple(st_fp(st) for st in stmts), bool(case['include']))
   ctx.sample({'text': text.replace(pk, 'PK')}, cap=3)
   try:
     gin.parse_config(text)
   except Exception as e:  # pylint: disable=broad-except
     ctx.check(False, 'valid-dynamic-config-rejected', 'parse raised %s: %s\n%s' % (type(e).__name__, str(e)[:300], text))
     return
-  keys = sorted(model)
+  # every object of the package is observed in the root scope (objects nothing was bound to must receive nothing), bound ones in their scopes too
+  keys = sorted(set(model) | {('', o) for o in OBJECTS})
+  for o in OBJECTS:
+    if not any(k[1] == o for k in model):
+      ctx.bucket('probe:unbound-object-registered' if _cfg(gin, resolve_obj(pk, o)) is not resolve_obj(pk, o) else 'probe:unbound-object-unregistered')
   # objects reached through the python object receive exactly what was bound through any spelling
   expect = {}
+  rkey = None
   if ref_created_at is not None:
     # the instance built through the (possibly scoped) reference: class bindings of that scope + method bindings
-    ka = model.get(('', 'alpha.K'), {})
-    ks = model.get((ref_scope, 'alpha.K'), {}) if ref_scope else {}
-    km = model.get(('', 'alpha.K.meth'), {})
-    kms = model.get((ref_scope, 'alpha.K.meth'), {}) if ref_scope else {}
-    expect[('', 'REF')] = {'a': ks.get('a', ka.get('a', 0)), 'b': ks.get('b', ka.get('b', 0)), 'm': kms.get('m', km.get('m', 0))}
+    rkey = (ref_opts.get('bsc', ''), ref_key(ref_opts))
+    meth, mprm = REF_TARGETS[ref_target]
+    root = model.get(('', ref_target), {})
+    scoped = model.get((ref_scope, ref_target), {}) if ref_scope else {}
+    km = model.get(('', meth), {})
+    expect[rkey] = {p: scoped.get(p, root.get(p, 0)) for p in OBJECTS[ref_target][2]}
+    expect[rkey][mprm] = km.get(mprm, 0)
+    expect[rkey]['_obj'] = 'ok'
   for (scope, obj) in keys:
     params = OBJECTS[obj][2]
     vals = {}
@@ -291,9 +433,10 @@ def run_bindings(ctx, case):
       vals[p] = v
     if OBJECTS[obj][3] in ('method', 'nested-method'):
       vals = {params[0]: vals[params[0]]}
+    vals['_obj'] = 'ok'
     expect[(scope, obj)] = vals
   if ref_created_at is not None:
-    keys = keys + [('', 'REF')]
+    keys = keys + [rkey]
   try:
     got = deliver(gin, pk, keys)
   except Exception as e:  # pylint: disable=broad-except
@@ -303,21 +446,17 @@ def run_bindings(ctx, case):
   if got != expect:
     d = {k: (got.get(k), expect.get(k)) for k in expect if got.get(k) != expect.get(k)}
     key = 'binding-through-other-spelling-lost'
-    if any(OBJECTS[k[1]][3] in ('class', 'nested-class') for k in d) and any(o in first_use for o in ('alpha.K.meth', 'alpha.K.other', 'alpha.K.Inner.deep')):
+    if any(k[1] in OBJECTS and OBJECTS[k[1]][3] in ('class', 'nested-class') for k in d) and any(o in first_use for o in ('alpha.K.meth', 'alpha.K.other', 'alpha.K.Inner.deep')):
       key = 'class-binding-orphaned-by-method-registration'
+    elif set(d) == {rkey} and meth_after_ref:
+      key = 'reference-lost-bindings-after-method-registration'
+    elif all((k[0], k[1]) not in model and k != rkey for k in d):
+      key = 'object-never-bound-received-a-value'
+    elif all({p: v for p, v in (got.get(k) or {}).items() if p != '_obj'} == {p: v for p, v in expect[k].items() if p != '_obj'} for k in d):
+      key = 'configured-object-is-not-the-exact-object'
     ctx.check(False, key, 'delivered (got, expected) %r\n%s' % (d, text.replace(pk, 'PK')))
   else:
     ctx.count('oracle_evals')
-  # references created before the method was configured still build instances with class + method bindings
-  if ref_created_at is not None:
-    fg = gin.get_configurable(resolve_obj(pk, 'sub.gamma.fg'))
-    r = fg()
-    inst = r[2]
-    exp_a = model.get(('', 'alpha.K'), {}).get('a', 0)
-    exp_m = model.get(('', 'alpha.K.meth'), {}).get('m', 0)
-    ok = getattr(inst, 'a', None) == exp_a and inst.meth()[1] == exp_m
-    ctx.check(ok, 'reference-lost-bindings-after-method-registration',
-              'instance built through an earlier reference has a=%r meth()->%r, expected a=%r m=%r\n%s' % (getattr(inst, 'a', None), inst.meth()[1], exp_a, exp_m, text.replace(pk, 'PK')))
   # one section per (scope, object)
   try:
     s = gin.config_str()
@@ -325,9 +464,16 @@ def run_bindings(ctx, case):
     ctx.check(False, 'config-str-raised', 'config_str() raised %s: %s' % (type(e).__name__, str(e)[:300].replace(pk, 'PK')))
     return
   nsec = sum(1 for l in s.splitlines() if l.startswith('# Parameters for '))
-  want = len(set((k[0], k[1]) for k in snap.store_nonempty(gc)))
-  objs_bound = len({(sc, o) for (sc, o) in model} | ({('', 'sub.gamma.fg')} if ref_created_at is not None else set()))
+  objs_bound = len({(sc, o) for (sc, o) in model} | ({(ref_opts.get('bsc', ''), 'sub.gamma.fg')} if ref_created_at is not None else set()))
   ctx.check(nsec == objs_bound, 'sections-per-object', 'config_str has %d sections for %d configured (scope, object) pairs:\n%s' % (nsec, objs_bound, s.replace(pk, 'PK')))
+  # the operative config string (everything above was called: every bound object is in it, plus the registered unbound ones)
+  op = None
+  if case.get('operative'):
+    try:
+      op = gin.operative_config_str()
+    except Exception as e:  # pylint: disable=broad-except
+      ctx.check(False, 'config-str-raised', 'operative_config_str() raised %s: %s' % (type(e).__name__, str(e)[:300].replace(pk, 'PK')))
+      return
   # ---- round trip in the same process
   gin.clear_config()
   try:
@@ -341,6 +487,17 @@ def run_bindings(ctx, case):
   ctx.bucket('roundtrip:same-process')
   ctx.check(got2 == expect, 'roundtrip-delivers-other-values', 'after re-parsing config_str(): %r expected %r\n%s' % (got2, expect, s.replace(pk, 'PK')))
   ctx.check(s2 == s, 'roundtrip-text-differs', 'config_str not idempotent:\n%s\n---\n%s' % (s.replace(pk, 'PK'), s2.replace(pk, 'PK')))
+  if op is not None:
+    gin.clear_config()
+    try:
+      gin.parse_config(op)
+      got_op = deliver(gin, pk, keys)
+    except Exception as e:  # pylint: disable=broad-except
+      ctx.check(False, 'operative-config-str-roundtrip-failed', 're-parsing operative_config_str() raised %s: %s\n%s' % (type(e).__name__, str(e)[:300], op.replace(pk, 'PK')))
+      return
+    ctx.bucket('roundtrip:operative')
+    ctx.check(got_op == expect, 'operative-roundtrip-delivers-other-values', 'after re-parsing operative_config_str(): (got, expected) %r\n%s' % (
+        {k: (got_op.get(k), expect[k]) for k in expect if got_op.get(k) != expect[k]}, op.replace(pk, 'PK')))
   # ---- and in a fresh interpreter
   if case.get('fresh'):
     cfg = os.path.join(_S['tree'].root, pk + '_rt.gin')
@@ -388,7 +545,14 @@ def run_errors(ctx, case):
     text = dyn + 'import %s.alpha\n%s.alpha.K.nometh.m = 1\n' % (pk, pk)
     exp = AttributeError
   elif which == 'gin-reserved':
-    text = dyn + random.Random(case['seed']).choice(['from %s import alpha as gin\n', 'import %s.beta as gin\n']) % pk
+    # the name is reserved however an import comes to bind it: through an alias, or because the module itself is called gin
+    how, tmpl = random.Random(case['seed']).choice([('alias', 'from %s import alpha as gin\n'), ('alias', 'import %s.beta as gin\n'), ('plain-import', 'import gin\n'),
+                                                    ('dotted-import', 'import gin.config\n'), ('from-import', 'from %s import gin\n'),
+                                                    ('plain-import', 'import %s.alpha\nimport gin\n'), ('from-import', 'from %s import gin\nimport %s.alpha\n')])
+    if how == 'from-import':
+      extend_package(pk)       # adds a module PK.gin
+    ctx.bucket('error:gin-reserved:' + how)
+    text = dyn + tmpl.replace('%s', pk)
     exp = ValueError
   elif which == 'late-enabling':
     text = 'import %s.alpha\n' % pk + dyn
@@ -425,35 +589,71 @@ def run_cross_parse(ctx, case):
             'import PK.alpha as Z9': 'Z9'}[imp]
   rs, ms = spell(case['ref_import']), spell(case['meth_import'])
   sc = 'rsc/' if case['scoped'] else ''
-  ref_text = dyn + case['ref_import'].replace('PK', pk) + '\nfrom %s.sub import gamma\ngamma.fg.ref = @%s%s.K()\n%s.K.a = 5\n' % (pk, sc, rs, rs)
+  wrap = case.get('wrap', 'plain')
+  ref_text = dyn + case['ref_import'].replace('PK', pk) + '\nfrom %s.sub import gamma\ngamma.fg.ref = %s\n%s.K.a = 5\n' % (
+      pk, REF_WRAPS[wrap] % ('@%s%s.K%s' % (sc, rs, '' if wrap == 'uneval' else '()')), rs)
   meth_text = dyn + case['meth_import'].replace('PK', pk) + '\n%s.K.meth.m = 7\n' % ms
   if case['second_method']:
     meth_text += '%s.K.other.o = 8\n' % ms
   ctx.bucket('cross-parse:' + case['how'])
-  ctx.fp('cross-parse', case['how'], case['ref_import'], case['meth_import'], case['scoped'], case['second_method'])
+  ctx.fp('cross-parse', case['how'], case['ref_import'], case['meth_import'], case['scoped'], case['second_method'], case.get('entry'), case.get('wrap'))
+  def parse(text, tag):
+    if case.get('entry') == 'file':
+      ctx.bucket('cross-parse:entry-file')
+      top = os.path.join(_S['tree'].root, pk + '_top%s.gin' % tag)
+      open(top, 'w').write(text)
+      gin.parse_config_file(top)
+    else:
+      gin.parse_config(text)
   try:
     if case['how'] == 'second-parse':
-      gin.parse_config(ref_text)
-      gin.parse_config(meth_text)
+      parse(ref_text, 1)
+      parse(meth_text, 2)
     elif case['how'] == 'include':
       path = os.path.join(_S['tree'].root, pk + '_m.gin')
       open(path, 'w').write(meth_text)
-      gin.parse_config(ref_text + "include '%s'\n" % path)
+      parse(ref_text + "include '%s'\n" % path, 1)
     else:
       path = os.path.join(_S['tree'].root, pk + '_r.gin')
       open(path, 'w').write(ref_text)
-      gin.parse_config("include '%s'\n" % path + meth_text)
+      parse("include '%s'\n" % path + meth_text, 1)
   except Exception as e:  # pylint: disable=broad-except
     ctx.check(False, 'method-configured-in-other-file-rejected', 'configuring a method of a class referenced from another file raised %s: %s\n%s\n---\n%s' %
               (type(e).__name__, str(e)[:300], ref_text.replace(pk, 'PK'), meth_text.replace(pk, 'PK')))
     return
-  inst = gin.get_configurable(resolve_obj(pk, 'sub.gamma.fg'))()[2]
-  got = (inst.a, inst.meth()[1], inst.other()[1])
-  want = (5, 7, 8 if case['second_method'] else 0)
+  def obs():
+    inst = unwrap_ref(gin.get_configurable(resolve_obj(pk, 'sub.gamma.fg'))()[2], wrap)
+    return (inst.a, inst.meth()[1], inst.other()[1], isinstance(inst, resolve_obj(pk, 'alpha.K')))
+  try:
+    got = obs()
+  except Exception as e:  # pylint: disable=broad-except
+    ctx.check(False, 'delivery-failed', 'building an instance through a reference written in another file raised %s: %s\n%s\n---\n%s' % (
+        type(e).__name__, str(e)[:300].replace(pk, 'PK'), ref_text.replace(pk, 'PK'), meth_text.replace(pk, 'PK')))
+    gin.clear_config()
+    return
+  want = (5, 7, 8 if case['second_method'] else 0, True)
   ctx.count('deliveries_compared')
   ctx.check(got == want, 'reference-from-other-file-stale-after-method-registration',
-            'instance built through a reference written in another file: (a, meth m, other o) = %r, expected %r\n%s\n---\n%s' %
+            'instance built through a reference written in another file: (a, meth m, other o, instance of alpha.K) = %r, expected %r\n%s\n---\n%s' %
             (got, want, ref_text.replace(pk, 'PK'), meth_text.replace(pk, 'PK')))
+  # the config string of the two files' bindings (their imports may collide) re-parses to the same deliveries
+  try:
+    s = gin.config_str()
+  except Exception as e:  # pylint: disable=broad-except
+    ctx.check(False, 'config-str-raised', 'cross-parse: config_str() raised %s: %s' % (type(e).__name__, str(e)[:300].replace(pk, 'PK')))
+    gin.clear_config()
+    return
+  gin.clear_config()
+  try:
+    gin.parse_config(s)
+    got2 = obs()
+    s2 = gin.config_str()
+    ctx.bucket('cross-parse:roundtrip')
+    ctx.count('roundtrips')
+    ctx.check(got2 == want, 'roundtrip-delivers-other-values', 'cross-parse: after re-parsing config_str(): %r expected %r\n%s' % (got2, want, s.replace(pk, 'PK')))
+    ctx.check(s2 == s, 'roundtrip-text-differs', 'cross-parse: config_str not idempotent:\n%s\n---\n%s' % (s.replace(pk, 'PK'), s2.replace(pk, 'PK')))
+  except Exception as e:  # pylint: disable=broad-except
+    ctx.check(False, 'config-str-roundtrip-failed', 'cross-parse: re-parsing config_str() raised %s: %s\n%s' % (type(e).__name__, str(e)[:300].replace(pk, 'PK'), s.replace(pk, 'PK')))
   gin.clear_config()
 
 
@@ -557,7 +757,486 @@ def run_class_shapes(ctx, case):
   gin.clear_config()
 
 
+# ---------------------------------------------------------------------------------------------------------------------------------------------
+# File trees: several top-level parse calls, nested / double / diamond includes, every file with its own (colliding) imports.
+# Extra modules are generated into the package directory (the shared package source is fixed).
+FT_EPS = """
+def shared(v=0):
+  return ('{pk}.{mod}.shared', v)
+class K:
+  def __init__(self, a=0):
+    self.a = a
+  def meth(self, m=0):
+    return ('{pk}.{mod}.K.meth', m, self.a)
+  class Inner:
+    def __init__(self, i=0):
+      self.i = i
+    def deep(self, d=0):
+      return ('{pk}.{mod}.K.Inner.deep', d, self.i)
+"""
+FT_REEXP = """
+import gin
+from {pk}.alpha import shared as shared_again, K as K_again     # re-exported objects: the same python objects under other names
+from {pk} import eps as eps_mod
+@gin.configurable('regcls_{pk}')
+class Reg:
+  def __init__(self, r=0):
+    self.r = r
+  def rm(self, q=0):
+    return ('{pk}.reexp.Reg.rm', q, self.r)
+"""
+FT_GIN = "def f(x=0):\n  return x\n"       # a module that happens to be called gin
+
+
+def extend_package(pk):
+  """Adds eps, sub.eps (same shape as alpha: function, class, method, nested class, nested method), reexp and a module named gin."""
+  import importlib
+  d = os.path.join(_S['tree'].root, pk)
+  for rel, src in (('eps.py', FT_EPS.replace('{mod}', 'eps')), ('sub/eps.py', FT_EPS.replace('{mod}', 'sub.eps')), ('reexp.py', FT_REEXP), ('gin.py', FT_GIN)):
+    with open(os.path.join(d, rel), 'w') as f:
+      f.write(src.replace('{pk}', pk))
+  importlib.invalidate_caches()
+
+
+FT_FULL = [['shared', 'shared', 'v'], ['K', 'K', 'a'], ['K.meth', 'K.meth', 'm'], ['K.Inner', 'K.Inner', 'i'], ['K.Inner.deep', 'K.Inner.deep', 'd']]
+# module as imported -> [member path as written after the module spelling, canonical (module, object path), parameter]
+FT_MEMBERS = {
+    'alpha': [[m, ['alpha', o], p] for m, o, p in FT_FULL],
+    'eps': [[m, ['eps', o], p] for m, o, p in FT_FULL],
+    'sub.eps': [[m, ['sub.eps', o], p] for m, o, p in FT_FULL],
+    'beta': [['shared', ['beta', 'shared'], 'v'], ['K', ['beta', 'K'], 'a']],
+    'reexp': [['shared_again', ['alpha', 'shared'], 'v'], ['K_again', ['alpha', 'K'], 'a'], ['K_again.meth', ['alpha', 'K.meth'], 'm'], ['eps_mod.K', ['eps', 'K'], 'a'],
+              ['eps_mod.K.Inner', ['eps', 'K.Inner'], 'i'], ['eps_mod.K.Inner.deep', ['eps', 'K.Inner.deep'], 'd'], ['Reg', ['reexp', 'Reg'], 'r'], ['Reg.rm', ['reexp', 'Reg.rm'], 'q']],
+}
+FT_OBJECTS = ([(m, o, p) for m in ('alpha', 'eps', 'sub.eps') for _, o, p in FT_FULL] + [('beta', 'shared', 'v'), ('beta', 'K', 'a'), ('reexp', 'Reg', 'r'), ('reexp', 'Reg.rm', 'q')])
+FT_SHAPES = {   # file id -> included file ids; roots = files parsed by successive top-level calls
+    'chain3': ({0: [1], 1: [2], 2: []}, [0]),
+    'two-includes': ({0: [1, 2], 1: [], 2: []}, [0]),
+    'diamond': ({0: [1, 2], 1: [3], 2: [3], 3: []}, [0]),
+    'sequence': ({0: [], 1: [], 2: []}, [0, 1, 2]),
+    'sequence-with-include': ({0: [2], 1: [], 2: []}, [0, 1]),
+}
+# relation of the file using a foreign name (F) to the file whose import binds it (D): shape, F, D
+FT_RELATIONS = {
+    'earlier-parse': [('sequence', 1, 0), ('sequence', 2, 0), ('sequence-with-include', 1, 0), ('sequence-with-include', 1, 2)],
+    'parent': [('chain3', 1, 0), ('chain3', 2, 1), ('diamond', 3, 1)],
+    'grandparent': [('chain3', 2, 0), ('diamond', 3, 0)],
+    'child': [('chain3', 0, 1), ('two-includes', 0, 2), ('chain3', 1, 2)],
+    'grandchild': [('chain3', 0, 2), ('diamond', 0, 3)],
+    'sibling-include': [('two-includes', 2, 1), ('diamond', 2, 1), ('diamond', 2, 3)],
+}
+POISON = 777777
+# DEFECT (reported, reproducer /tmp/impl/C19/defect_1.py): when the name a file's import binds is bound to ANOTHER module by another file and that
+# other module's class K is already registered under the alias-derived selector, configuring a METHOD of this file's K before K itself raises
+# ValueError ('registered with a custom module ... but the class is also being registered'): the method is registered under the alias-derived
+# module, its class then falls back to the real module path. While this is False the generator lets the class be addressed first through every
+# import whose alias-derived selector prefix collides with another import's; set it to True once gin is repaired (the oracle needs no change).
+ENABLE_METHOD_BEFORE_CLASS_UNDER_COLLIDING_NAME = False
+
+
+def ft_spelling(imp):
+  """(import lines, names they bind, spelling of the module in selectors) of an import [module, form, alias]."""
+  mod, form, alias = imp
+  parent, last = ('PK.' + mod).rsplit('.', 1)
+  if form == 'as':
+    return ['import PK.%s as %s' % (mod, alias)], [alias], alias
+  if form == 'from-as':
+    return ['from %s import %s as %s' % (parent, last, alias)], [alias], alias
+  if form == 'from':
+    return ['from %s import %s' % (parent, last)], [last], last
+  if form == 'pkg':     # `from PK import sub` next to a plain import of the submodule (which makes it an attribute of the package)
+    return ['import PK.%s' % mod, 'from PK import sub'], ['PK', 'sub'], mod
+  return ['import PK.%s' % mod], ['PK'], 'PK.' + mod
+
+
+def ft_prefix(imp):
+  """The selector prefix gin derives from an import for the objects reached through it (bound name instead of the module's own name)."""
+  mod, form, alias = imp
+  if form in ('as', 'from-as'):
+    return '.'.join(('PK.' + mod).split('.')[:-1] + [alias])
+  return 'PK.' + mod
+
+
+def ft_hazard(files, roots, events=None):
+  """(file id, item index) of the first statement, in parse order, that runs into the defect described at
+  ENABLE_METHOD_BEFORE_CLASS_UNDER_COLLIDING_NAME: a method of a not yet registered class whose alias-derived selector belongs to another
+  module's class while the method's own does not (or the fall-back names are claimed too). Follows gin's naming of first registrations."""
+  registered, claimed = set(), {}
+  def claim(obj, sel, real):
+    registered.add(obj)
+    if claimed.setdefault(sel, obj) != obj:
+      claimed.setdefault(real, obj)
+  def walk(fid):
+    f = files[str(fid)]
+    for k, it in enumerate(f['items']):
+      if it[0] == 'include':
+        hz = walk(it[1])
+        if hz:
+          return hz
+      elif it[0] == 'bind':
+        imp = f['imports'][it[1]]
+        written, (mod, opath), _ = FT_MEMBERS[imp[0]][it[2]]
+        obj = (mod, opath)
+        if obj in registered:
+          continue
+        sel, real = ft_prefix(imp) + '.' + written, 'PK.%s.%s' % (mod, opath)
+        if opath.split('.')[-1] in ('meth', 'deep', 'rm'):
+          cls = (mod, opath.rsplit('.', 1)[0])
+          csel, creal = sel.rsplit('.', 1)[0], real.rsplit('.', 1)[0]
+          if cls not in registered:
+            cls_taken, meth_taken = claimed.get(csel, cls) != cls, claimed.get(sel, obj) != obj
+            real_free = claimed.get(creal, cls) == cls and claimed.get(real, obj) == obj
+            if cls_taken and not (meth_taken and real_free):
+              return (str(fid), k)
+            if cls_taken and events is not None:
+              events.append('method-before-class-under-colliding-name')
+            claim(obj, sel, real)
+            claim(cls, csel, creal)
+          else:
+            registered.add(obj)
+        else:
+          claim(obj, sel, real)
+    return None
+  for r in roots:
+    hz = walk(r)
+    if hz:
+      return hz
+  return None
+
+
+def gen_ftree(rng, negative, fresh=False):
+  relation = None
+  if negative:
+    relation = rng.choice(sorted(FT_RELATIONS))
+    shape, f_id, d_id = rng.choice(FT_RELATIONS[relation])
+  else:
+    shape = rng.choice(sorted(FT_SHAPES))
+  includes, roots = FT_SHAPES[shape]
+  focus = rng.random() < 0.3
+  files = {}
+  val = 10
+  for fid in sorted(includes):
+    imports, bound = [], set()
+    focus_members = rng.choice([[1, 3], [2, 4], [2, 4]])       # (focus) this file mostly addresses K and K.Inner / K.meth and K.Inner.deep
+    for _ in range(rng.choice([1, 1, 2])):
+      mod = rng.choice(['alpha', 'alpha', 'beta', 'eps', 'eps', 'sub.eps', 'sub.eps', 'reexp'])
+      form = rng.choice(['as', 'from-as', 'from-as', 'from', 'plain'] + (['pkg'] if mod == 'sub.eps' else []))
+      imp = [mod, form, rng.choice(['X', 'X', 'X', 'eps', 'alpha', 'mod'])]
+      if focus:     # every file calls its module X, and the modules have equally named classes with equally named methods
+        imp = [rng.choice(['alpha', 'alpha', 'eps', 'eps', 'sub.eps']), rng.choice(['as', 'from-as']), 'X']
+      names = ft_spelling(imp)[1]
+      if any(nm in bound and nm != 'PK' for nm in names):
+        continue        # two statements of one file binding one name: covered by alias-collision:same-file-rebind
+      bound.update(names)
+      imports.append(imp)
+    items = []
+    for _ in range(rng.choice([1, 2, 3, 4])):
+      ii = rng.randrange(len(imports))
+      mi = rng.randrange(len(FT_MEMBERS[imports[ii][0]]))
+      if focus and rng.random() < 0.7:
+        mi = rng.choice(focus_members)
+      val += 1
+      items.append(['bind', ii, mi, val, rng.choice(['line', 'line', 'line', 'block']), rng.choice(['', '', '', 'sc'])])
+    for child in includes[fid]:
+      items.insert(rng.randrange(len(items) + 1), ['include', child])
+    files[str(fid)] = {'imports': imports, 'items': items}
+  case = {'kind': 'ftree', 'shape': shape, 'files': files, 'roots': roots, 'fresh': bool(fresh and not negative),
+          'entry': rng.choice(['parse_config', 'parse_config_file', 'parse_config_files_and_bindings', 'mixed'])}
+  if not negative and len(roots) > 1 and case['entry'] != 'parse_config_files_and_bindings' and rng.random() < 0.5:
+    case['clear_after_first'] = True
+  if relation == 'earlier-parse' and rng.random() < 0.5:
+    case['entry'] = 'parse_config_files_and_bindings'       # the file using the foreign name is the list of extra bindings
+  if negative:
+    f, d = files[str(f_id)], files[str(d_id)]
+    di = rng.randrange(len(d['imports']))
+    f_bound = {nm for imp in f['imports'] for nm in ft_spelling(imp)[1]} | {'gamma'}
+    if any(nm in f_bound for nm in ft_spelling(d['imports'][di])[1]) or d['imports'][di][1] in ('plain', 'pkg'):
+      # make the name foreign to F (F's own statements are rendered from its own import table and do not change)
+      d['imports'][di] = [d['imports'][di][0], rng.choice(['as', 'from-as']), 'Q7']
+    position = rng.choice(['binding', 'block', 'reference', 'reference-in-container', 'macro-value', 'scoped-binding'])
+    if position.startswith('reference'):
+      f['imports'].append(['sub.gamma', 'from', None])
+    mi = rng.randrange(len(FT_MEMBERS[d['imports'][di][0]]))
+    bad = ['bad', d_id, di, mi, position]
+    if relation in ('child', 'grandchild'):
+      f['items'].append(bad)        # after the include statement through which the name's file is parsed
+    else:
+      f['items'].insert(rng.randrange(len(f['items']) + 1), bad)
+    case.update(relation=relation, bad_file=f_id)
+  # (after the re-aliasing above: it changes which selectors collide)
+  if not ENABLE_METHOD_BEFORE_CLASS_UNDER_COLLIDING_NAME:
+    # a fresh interpreter registers in the order of the emitted text, which the generator does not control: the same defect is reached when the
+    # text keeps two imports with one selector prefix (`import PK.alpha` next to `from PK import eps as alpha`: different bound names, not re-aliased)
+    imps = [imp for f in files.values() for imp in f['imports']]
+    if any(p[1] in ('plain', 'pkg') and q[1] in ('as', 'from-as') and p[0] != q[0] and ft_prefix(p) == ft_prefix(q) for p in imps for q in imps):
+      case['fresh'] = False
+    while True:
+      hz = ft_hazard(files, roots)
+      if hz is None:
+        break
+      fid, k = hz
+      it = files[fid]['items'][k]
+      members = FT_MEMBERS[files[fid]['imports'][it[1]][0]]
+      val += 1
+      files[fid]['items'].insert(k, ['bind', it[1], [m[0] for m in members].index(members[it[2]][0].rsplit('.', 1)[0]), val, 'line', ''])
+  return case
+
+
+def ft_render(case, pk, fid, paths):
+  """Text of file `fid`."""
+  f = case['files'][str(fid)]
+  lines = ['from __gin__ import dynamic_registration']
+  for imp in f['imports']:
+    lines += ft_spelling(imp)[0]
+  for it in f['items']:
+    if it[0] == 'include':
+      lines.append("include '%s'" % paths[str(it[1])])
+    elif it[0] == 'bind':
+      _, ii, mi, val, style, scope = it
+      member, _, prm = FT_MEMBERS[f['imports'][ii][0]][mi]
+      sel = '%s%s.%s' % (scope + '/' if scope else '', ft_spelling(f['imports'][ii])[2], member)
+      lines.append('%s:\n  %s = %d' % (sel, prm, val) if style == 'block' else '%s.%s = %d' % (sel, prm, val))
+    else:
+      _, d_id, di, mi, position = it
+      dimp = case['files'][str(d_id)]['imports'][di]
+      member, _, prm = FT_MEMBERS[dimp[0]][mi]
+      sel = '%s.%s' % (ft_spelling(dimp)[2], member)
+      cls = '%s.%s' % (ft_spelling(dimp)[2], 'Reg' if dimp[0] == 'reexp' else 'K')
+      lines.append({'binding': '%s.%s = %d' % (sel, prm, POISON), 'block': '%s:\n  %s = %d' % (sel, prm, POISON), 'scoped-binding': 'sc/%s.%s = %d' % (sel, prm, POISON),
+                    'reference': 'gamma.fg.ref = @%s()' % cls, 'reference-in-container': 'gamma.fg.ref = [1, @%s]' % cls, 'macro-value': 'BADM = @%s()' % cls}[position])
+  return '\n'.join(lines).replace('PK', pk) + '\n'
+
+
+def ft_model(case):
+  """(scope, module, object path, parameter) -> value, by walking the files in parse order (later statements win). None when a bad statement stops it."""
+  model = {}
+  def walk(fid):
+    for it in case['files'][str(fid)]['items']:
+      if it[0] == 'include':
+        walk(it[1])
+      elif it[0] == 'bind':
+        _, ii, mi, val, _, scope = it
+        _, (mod, opath), prm = FT_MEMBERS[case['files'][str(fid)]['imports'][ii][0]][mi]
+        model[(scope, mod, opath, prm)] = val
+  for n, r in enumerate(case['roots']):
+    if n and case.get('clear_after_first'):
+      model.clear()
+    walk(r)
+  return model
+
+
+def ft_observe(gin, pk):
+  """What every object of the (extended) package receives in the root scope and in scope sc, reached through the python object itself:
+  'scope|module|object path' -> [value, 'ok' or what answered instead of the exact object]."""
+  import importlib
+  out = {}
+  for scope in ('', 'sc'):
+    with gin.config_scope(scope or None):
+      for mod, opath, prm in FT_OBJECTS:
+        m = importlib.import_module(pk + '.' + mod)
+        parts = opath.split('.')
+        tag = '%s.%s.%s' % (pk, mod, opath)
+        if parts[-1] == 'shared':
+          r = _cfg(gin, m.shared)()
+          res = [r[1], 'ok' if r[0] == tag else repr(r[0])]
+        elif parts[-1] in ('K', 'Inner', 'Reg'):
+          cls = m
+          for a in parts:
+            cls = getattr(cls, a)
+          inst = _cfg(gin, cls)()
+          res = [getattr(inst, prm), 'ok' if isinstance(inst, cls) else repr(type(inst))]
+        else:
+          cls = m
+          for a in parts[:-1]:
+            cls = getattr(cls, a)
+          inst = _cfg(gin, cls)()
+          r = getattr(inst, parts[-1])()
+          res = [r[1], 'ok' if isinstance(inst, cls) and r[0] == tag else repr((type(inst), r[0]))]
+        out['%s|%s|%s' % (scope, mod, opath)] = [res[0], res[1].replace(pk, 'PK')]
+  return out
+
+
+FT_SNIPPET = r"""
+import sys, json
+sys.path.insert(0, %(repo)r); sys.path.insert(0, %(verif)r); sys.path.insert(0, %(root)r)
+import gin
+from vf.checks import c19
+gin.parse_config(open(%(cfg)r).read())
+print('@@' + json.dumps(c19.ft_observe(gin, %(pk)r)))
+"""
+
+
+def run_ftree(ctx, case):
+  import gin
+  gin.clear_config()
+  pk = _S['tree'].new_package('c19f')
+  extend_package(pk)
+  root = _S['tree'].root
+  fids = sorted(case['files'], key=int)
+  paths = {fid: os.path.join(root, '%s_f%s.gin' % (pk, fid)) for fid in fids}
+  texts = {fid: ft_render(case, pk, int(fid), paths) for fid in fids}
+  for fid in fids:
+    with open(paths[fid], 'w') as f:
+      f.write(texts[fid])
+  negative = 'relation' in case
+  shown = '\n'.join('--- file %s%s\n%s' % (fid, ' (top level)' if int(fid) in case['roots'] else '', texts[fid]) for fid in fids).replace(pk, 'PK')
+  # coverage
+  ctx.bucket('ftree:shape:' + case['shape'])
+  bound_by = {}
+  for fid in fids:
+    f = case['files'][fid]
+    for imp in f['imports']:
+      if imp[0] == 'sub.gamma':
+        continue
+      for nm in ft_spelling(imp)[1]:
+        if nm != 'PK':
+          bound_by.setdefault(nm, set()).add(imp[0])
+      if imp[1] == 'pkg':
+        ctx.bucket('ftree:spelling:package-then-submodule')
+      if imp[1] == 'plain' and imp[0] == 'sub.eps':
+        ctx.bucket('ftree:spelling:plain-three-components')
+    for it in f['items']:
+      if it[0] == 'bind':
+        imp = f['imports'][it[1]]
+        member, (mod, opath), _ = FT_MEMBERS[imp[0]][it[2]]
+        if imp[0] == 'reexp' and mod != 'reexp':
+          ctx.bucket('ftree:spelling:re-exported-object')
+        if opath == 'Reg.rm':
+          ctx.bucket('ftree:obj:decorator-registered-class-method')
+        if it[4] == 'block':
+          ctx.bucket('ftree:form:block')
+  colliding = {nm for nm, mods in bound_by.items() if len(mods) > 1}
+  events = []
+  if not negative and ft_hazard(case['files'], case['roots'], events) is not None:
+    ctx.bucket('ftree:method-before-class-where-gin-is-known-to-fail')
+  for ev in events[:1] if not negative else []:
+    ctx.bucket('ftree:' + ev)
+  if colliding:
+    ctx.bucket('ftree:colliding-bound-name-across-files')
+  if any(len(bound_by[nm]) > 2 for nm in colliding):
+    ctx.bucket('ftree:colliding-name-three-files')
+  for fid in fids:
+    f = case['files'][fid]
+    for it in f['items']:
+      if it[0] == 'bind' and '.' in FT_MEMBERS[f['imports'][it[1]][0]][it[2]][0] and set(ft_spelling(f['imports'][it[1]])[1]) & colliding:
+        ctx.bucket('ftree:class-member-through-colliding-name')
+  ctx.fp('ftree', case['shape'], case['entry'], case.get('relation'), tuple((fid, tuple(map(tuple, case['files'][fid]['imports'])), tuple((it[0],) + tuple(it[1:3]) + tuple(it[4:]) for it in case['files'][fid]['items'])) for fid in fids))
+  ctx.sample({'ftree': shown}, cap=2)
+  # ---- parse: one top-level call per root
+  roots = [str(r) for r in case['roots']]
+  entry = case['entry']
+  err = None
+  try:
+    if entry == 'parse_config_files_and_bindings':
+      ctx.bucket('ftree:entry:parse_config_files_and_bindings')
+      gin.parse_config_files_and_bindings([paths[r] for r in roots[:-1]], texts[roots[-1]].splitlines(), finalize_config=False)
+    else:
+      for n, r in enumerate(roots):
+        if n and case.get('clear_after_first'):
+          # a new configuration generation: what the first call registered stays registered (and callable), its bindings and imports are gone
+          gin.clear_config()
+          ctx.bucket('ftree:registered-before-clear_config')
+        how = entry if entry != 'mixed' else ('parse_config', 'parse_config_file')[(n + int(fids[-1])) % 2]
+        ctx.bucket('ftree:entry:' + how)
+        if how == 'parse_config':
+          gin.parse_config(texts[r])
+        else:
+          gin.parse_config_file(paths[r])
+  except Exception as e:  # pylint: disable=broad-except
+    err = e
+  if negative:
+    ctx.bucket('isolation:' + case['relation'])
+    position = [it for it in case['files'][str(case['bad_file'])]['items'] if it[0] == 'bad'][0][4]
+    ctx.bucket('isolation:position:' + position)
+    if err is None:
+      ctx.check(False, 'name-of-another-file-accepted', 'file %s uses a name that only the imports of another file (%s) provide (%s position): accepted\n%s' % (
+          case['bad_file'], case['relation'], position, shown))
+    elif not isinstance(err, NameError):
+      ctx.check(False, 'name-of-another-file-wrong-exception', 'file %s uses a name only provided by another file (%s, %s position): expected NameError, got %s: %s\n%s' % (
+          case['bad_file'], case['relation'], position, type(err).__name__, str(err)[:300].replace(pk, 'PK'), shown))
+    else:
+      ctx.count('oracle_evals')
+    # whatever happened, the statement resolves to no object: no object may have received its value
+    try:
+      import importlib
+      obs = ft_observe(gin, pk)
+      ref = _cfg(gin, importlib.import_module(pk + '.sub.gamma').fg)()[2]
+      ctx.bucket('isolation:nothing-delivered')
+      ctx.check(not any(v[0] == POISON for v in obs.values()) and ref is None, 'statement-with-unresolvable-name-configured-an-object',
+                'a statement whose first name no import of its file provides (%s, %s position) delivered its value: %r ref=%r\n%s' % (
+                    case['relation'], position, {k: v for k, v in obs.items() if v[0] == POISON}, ref, shown))
+    except Exception as e:  # pylint: disable=broad-except
+      ctx.check(False, 'delivery-failed', 'after a rejected file tree, calling the objects raised %s: %s\n%s' % (type(e).__name__, str(e)[:300].replace(pk, 'PK'), shown))
+    gin.clear_config()
+    return
+  if err is not None:
+    ctx.check(False, 'valid-dynamic-config-rejected', 'file tree (%s, %s) raised %s: %s\n%s' % (case['shape'], entry, type(err).__name__, str(err)[:300].replace(pk, 'PK'), shown))
+    gin.clear_config()
+    return
+  model = ft_model(case)
+  expect = {}
+  for scope in ('', 'sc'):
+    for mod, opath, prm in FT_OBJECTS:
+      v = model.get(('', mod, opath, prm), 0)
+      if scope:
+        v = model.get((scope, mod, opath, prm), v)
+      expect['%s|%s|%s' % (scope, mod, opath)] = [v, 'ok']
+  def compare(got, key, what, text):
+    d = {k: (got.get(k), expect[k]) for k in expect if got.get(k) != expect[k]}
+    if d and all(g is not None and g[0] == e[0] for g, e in d.values()):
+      key = 'configured-object-is-not-the-exact-object'
+    ctx.check(not d, key, '%s: (got, expected) %r\n%s' % (what, d, text))
+  try:
+    got = ft_observe(gin, pk)
+  except Exception as e:  # pylint: disable=broad-except
+    ctx.check(False, 'delivery-failed', 'file tree: calling the objects raised %s: %s\n%s' % (type(e).__name__, str(e)[:300].replace(pk, 'PK'), shown))
+    gin.clear_config()
+    return
+  ctx.count('deliveries_compared')
+  compare(got, 'binding-through-other-spelling-lost', 'file tree (%s, %s)' % (case['shape'], entry), shown)
+  try:
+    s = gin.config_str()
+    op = gin.operative_config_str()
+  except Exception as e:  # pylint: disable=broad-except
+    ctx.check(False, 'config-str-raised', 'file tree: config_str() / operative_config_str() raised %s: %s\n%s' % (type(e).__name__, str(e)[:300].replace(pk, 'PK'), shown))
+    gin.clear_config()
+    return
+  nsec = sum(1 for l in s.splitlines() if l.startswith('# Parameters for '))
+  want = len({k[:3] for k in model})
+  ctx.check(nsec == want, 'sections-per-object', 'file tree: config_str has %d sections for %d configured (scope, object) pairs:\n%s\n%s' % (nsec, want, s.replace(pk, 'PK'), shown))
+  for name, text, key_fail, key_val in (('config_str', s, 'config-str-roundtrip-failed', 'roundtrip-delivers-other-values'),
+                                        ('operative', op, 'operative-config-str-roundtrip-failed', 'operative-roundtrip-delivers-other-values')):
+    gin.clear_config()
+    try:
+      gin.parse_config(text)
+      got2 = ft_observe(gin, pk)
+      s2 = gin.config_str()
+    except Exception as e:  # pylint: disable=broad-except
+      ctx.check(False, key_fail, 'file tree: re-parsing %s raised %s: %s\n%s\n%s' % (name, type(e).__name__, str(e)[:300].replace(pk, 'PK'), text.replace(pk, 'PK'), shown))
+      continue
+    ctx.count('roundtrips')
+    ctx.bucket('ftree:roundtrip:' + name)
+    compare(got2, key_val, 'file tree: after re-parsing %s' % name, text.replace(pk, 'PK') + '\n' + shown)
+    if name == 'config_str':
+      ctx.check(s2 == s, 'roundtrip-text-differs', 'file tree: config_str not idempotent:\n%s\n---\n%s' % (s.replace(pk, 'PK'), s2.replace(pk, 'PK')))
+  if case.get('fresh'):
+    cfg = os.path.join(root, pk + '_rt.gin')
+    open(cfg, 'w').write(s)
+    code = FT_SNIPPET % {'repo': core.repo_root(), 'verif': core.VERIF, 'root': root, 'cfg': cfg, 'pk': pk}
+    try:
+      r = subprocess.run([core.PY, '-c', code], capture_output=True, text=True, timeout=120, env=dict(os.environ, PYTHONHASHSEED='0'))
+    except subprocess.TimeoutExpired:
+      raise core.Inconclusive('fresh interpreter timed out')
+    line = [l for l in r.stdout.splitlines() if l.startswith('@@')]
+    if ctx.check(bool(line), 'fresh-process-roundtrip-failed', 'file tree: fresh interpreter failed: %s\n%s' % (r.stderr[-600:].replace(pk, 'PK'), s.replace(pk, 'PK'))):
+      ctx.bucket('ftree:roundtrip:fresh-process')
+      compare(json.loads(line[0][2:]), 'fresh-process-delivers-other-values', 'file tree: fresh interpreter', s.replace(pk, 'PK') + '\n' + shown)
+  gin.clear_config()
+
+
 def run_case(ctx, case):
+  if case['kind'] == 'ftree':
+    return run_ftree(ctx, case)
   if case['kind'] == 'class-shape':
     return run_class_shapes(ctx, case)
   if case['kind'] == 'alias-collision':
@@ -570,10 +1249,16 @@ def run_case(ctx, case):
     run_errors(ctx, case)
 
 
-LEVEL_TEXT = ('Runtime metamorphic monitor on a freshly generated package per case: values bound through every available import spelling must be delivered '
-              'to the exact Python object (reached through gin.get_configurable(<object>)), regardless of the order of first use of classes, methods and '
-              'references; config_str() must have one section per object and re-parse to the same deliveries and text in the same process and in a '
-              'fresh interpreter; name/attribute/reserved-name/enabling faults must raise the stated exception classes.')
-LEVEL_NOTE = 'Trusted: the spelling table in this file (which names each import form binds). One fixed package shape (11 objects) with random import subsets and orders.'
-TECHNIQUE = 'runtime metamorphic monitor (spelling A vs spelling B, first parse vs config_str re-parse vs fresh interpreter) on generated packages'
+LEVEL_TEXT = ('Runtime metamorphic monitor on a freshly generated package per case: values bound through every available import spelling (line and block '
+              'form) must be delivered to the exact Python object (reached through gin.get_configurable(<object>); instances and return tags identify it; '
+              'objects nothing was bound to must receive nothing), regardless of the order of first use of classes, methods and references (bare, inside '
+              'containers, unevaluated, to nested classes, held by macros or scoped bindings); config_str() must have one section per object and re-parse to '
+              'the same deliveries and text in the same process and in a fresh interpreter, operative_config_str() to the same deliveries; file trees parsed '
+              'by one to three top-level calls (parse_config, parse_config_file, parse_config_files_and_bindings, with clear_config in between) with nested, '
+              'double and diamond includes whose files bind colliding names; name/attribute/reserved-name/enabling faults must raise the stated exception '
+              'classes, and a name provided only by an earlier call, an ancestor, a descendant or a sibling include is a NameError that configures nothing.')
+LEVEL_NOTE = ('Trusted: the spelling tables in this file (which names each import form binds) and, while ENABLE_METHOD_BEFORE_CLASS_UNDER_COLLIDING_NAME is '
+              'False, the model of first-registration names used to keep the generator away from one reported defect. Two fixed package shapes '
+              '(14 + 19 objects) with random import subsets, aliases, orders and include structures.')
+TECHNIQUE = 'runtime metamorphic monitor (spelling A vs spelling B, first parse vs config_str / operative_config_str re-parse vs fresh interpreter) on generated packages and file trees'
 DESIGN_REF = 'DESIGN.md section 4, C19'
